@@ -239,7 +239,7 @@ func released(path string) error {
 
 func tryOpen(path string, oc fix.OpenCfg) (*updog.Index, error) {
 	var idx *updog.Index
-	err, hung, slow := fix.Watchdog(30*time.Second, []string{"syscall.Flock", "flock"}, func() error {
+	err, hung, slow := fix.Watchdog(30*time.Second, []string{"syscall.Flock+updog.OpenIndex", "bbolt.flock+updog.OpenIndex"}, func() error {
 		var e error
 		idx, _, e = fix.Open(path, oc)
 		return e
